@@ -193,7 +193,7 @@ def run_fuzz(ctx, target, corpus_dirs, seconds, workers, max_len=4096, extra_env
     wd = tempfile.mkdtemp(prefix=f"{ctx.pid}-{target}-", dir=OUT)
     procs = []
     env = dict(os.environ); env.update(ck.SAN_ENV)
-    env["ASAN_OPTIONS"] = env["ASAN_OPTIONS"].replace("abort_on_error=0", "abort_on_error=0") + ":detect_leaks=1"
+    env["ASAN_OPTIONS"] = env["ASAN_OPTIONS"].replace("detect_leaks=0", "detect_leaks=1")
     if extra_env:
         env.update(extra_env)
     for w in range(workers):
@@ -258,6 +258,7 @@ def run_fuzz(ctx, target, corpus_dirs, seconds, workers, max_len=4096, extra_env
 def fuzz_replay_fn(exe, extra_env=None):
     def fn(path):
         env = dict(os.environ); env.update(ck.SAN_ENV)
+        env["ASAN_OPTIONS"] = env["ASAN_OPTIONS"].replace("detect_leaks=0", "detect_leaks=1")
         if extra_env:
             env.update(extra_env)
         r = subprocess.run([exe, path], env=env, stdout=subprocess.PIPE, stderr=subprocess.PIPE, text=True, errors="replace", timeout=300)
